@@ -442,6 +442,21 @@ pub fn run_exhaustive(out: &mut Out, cfg: &Cfg, anon: bool, func: bool, shard: u
         let mut c = p.clone(); c.push((a.clone(), b.clone()));
         emit(out, cfg, &c);
     } } }
+    // long alias chains: $V1 = $V2, ..., $Vn = $Vn+1, then the two ends unified again, from either end; also a chain that
+    // ends in a constant (no bound on the number of links the implementation may follow is part of the properties)
+    if shard == 0 {
+        for n in [3usize, 50, 101, 102, 150, 257] {
+            let chain: Vec<Pair> = (1..=n).map(|i| (var(i), var(i + 1))).collect();
+            let back: Vec<Pair> = (1..=n).map(|i| (var(i + 1), var(i))).collect();
+            for base in [&chain, &back] {
+                for last in [(var(n + 1), var(1)), (var(1), var(n + 1)), (var(n + 1), atom!("a")), (var(1), atom!("a"))] {
+                    let mut c = base.clone(); c.push(last);
+                    emit(out, cfg, &c);
+                    out.stat("long_alias_chain_cases", 1);
+                }
+            }
+        }
+    }
 }
 
 pub fn dec_case(body: &str) -> Option<Vec<Pair>> {
